@@ -31,9 +31,17 @@ Z.AXIOMS.add('A-np: joining a root with a relative path without ".." components 
 
 def fs_error(E, ctx, label):
     """The filesystem call fails here: OSError, or ValueError (embedded NUL etc.)."""
-    k = ctx.nondet(3, label)
+    k = ctx.nondet(4, label)
     if k == 1:
         raise RaiseSig(E.interp.make_exc(ctx, 'builtins.OSError', [VStr(label)]), None)
+    if k == 3:
+        # some SUBCLASS of OSError (FileNotFoundError, PermissionError, ...): a handler naming one of them may or may
+        # not be the one that catches it
+        from pyvc.classes import cls_of, issub
+        e = ctx.new_obj('oserror', distinct=False)
+        ctx.assume(issub(cls_of(e), E.classes.const('builtins.OSError')))
+        ctx.assume(e != Z.NONE)
+        raise RaiseSig(VObj(e, None), None)
     if k == 2:
         raise RaiseSig(E.interp.make_exc(ctx, 'builtins.ValueError', [VStr(label)]), None)
 
